@@ -28,6 +28,14 @@ pub enum MOp {
     CallN(usize, u32),
     /// group invalidation: kind in {tag, event, dep, cache}, argument
     Req(&'static str, String),
+    /// E4: create the future of f(k) in a slot without polling it
+    PStart(usize, u32),
+    /// poll the pending call once
+    PPoll(usize),
+    /// open gate g of the gated bodies
+    POpen(usize),
+    /// drop the pending call
+    PDrop(usize),
 }
 
 impl MOp {
@@ -42,6 +50,10 @@ impl MOp {
             MOp::StatsReset2 => "stats_reset2".into(),
             MOp::CallN(i, k) => format!("calln {i} {k}"),
             MOp::Req(kind, a) => format!("req {kind} {a}"),
+            MOp::PStart(s, k) => format!("pstart {s} {k}"),
+            MOp::PPoll(s) => format!("ppoll {s}"),
+            MOp::POpen(g) => format!("popen {g}"),
+            MOp::PDrop(s) => format!("pdrop {s}"),
         }
     }
     pub fn parse(s: &str) -> Option<MOp> {
@@ -56,6 +68,10 @@ impl MOp {
             "stats_reset" => MOp::StatsReset,
             "stats_reset2" => MOp::StatsReset2,
             "calln" => MOp::CallN(n(1)? as usize, n(2)?),
+            "pstart" => MOp::PStart(n(1)? as usize, n(2)?),
+            "ppoll" => MOp::PPoll(n(1)? as usize),
+            "popen" => MOp::POpen(n(1)? as usize),
+            "pdrop" => MOp::PDrop(n(1)? as usize),
             "req" => MOp::Req(
                 match *p.get(1)? {
                     "tag" => "tag",
@@ -160,6 +176,15 @@ pub struct Machine {
     pub now: u64,
     inval_seen: bool,
     group_inval_seen: bool,
+    slots: Vec<Option<PendingCall>>,
+    pub pending_seen: bool,
+}
+
+pub struct PendingCall {
+    k: u32,
+    fut: l1::BoxFut,
+    polled: bool,
+    done: bool,
 }
 
 /// functions called at least once in this process (= registered in the registries)
@@ -192,10 +217,16 @@ impl Machine {
             }
         }
         l1::reset_scripts();
-        Ok(Machine { g: FnGhost::new(f), g2: f2.map(FnGhost::new), gx: group.iter().map(|x| FnGhost::new(x)).collect(), now: START_NS, inval_seen: false, group_inval_seen: false })
+        l1::gates_reset();
+        Ok(Machine { g: FnGhost::new(f), g2: f2.map(FnGhost::new), gx: group.iter().map(|x| FnGhost::new(x)).collect(), now: START_NS, inval_seen: false, group_inval_seen: false, slots: vec![None, None], pending_seen: false })
     }
 
     fn attribute_after_invalidation(&self, out: &mut StepOut) {
+        if self.pending_seen {
+            // C20: while a call is suspended (or after it was dropped) everything else behaves normally
+            let more: Vec<MFinding> = out.findings.iter().filter(|f| f.property != "C20").map(|f| MFinding { property: "C20", monitor: format!("other-operation-misbehaved/{}/{}", f.property, f.monitor), detail: f.detail.clone() }).collect();
+            out.findings.extend(more);
+        }
         let extra: Vec<MFinding> = out
             .findings
             .iter()
@@ -233,6 +264,147 @@ impl Machine {
                     call_step(g2, *k, now, &mut out);
                 }
                 self.attribute_after_invalidation(&mut out);
+            }
+            MOp::PStart(slot, k) => {
+                if self.slots[*slot].is_some() || self.g.f.spawn.is_none() {
+                    out.obs = "noop".into();
+                    return out;
+                }
+                self.pending_seen = true;
+                let pre = (self.g.listed(), l1::stats_of(self.g.f.name));
+                l1::log_take();
+                l1::GATE_BYPASS.store(false, std::sync::atomic::Ordering::SeqCst);
+                let fut = (self.g.f.spawn.unwrap())(*k);
+                l1::GATE_BYPASS.store(true, std::sync::atomic::Ordering::SeqCst);
+                let post = (self.g.listed(), l1::stats_of(self.g.f.name));
+                if pre != post || l1::log_len() != 0 {
+                    out.findings.push(MFinding { property: "C20", monitor: "creating-the-future-touched-the-cache".into(), detail: format!("{:?} -> {:?}", pre, post) });
+                }
+                self.slots[*slot] = Some(PendingCall { k: *k, fut, polled: false, done: false });
+                out.obs = format!("pstart {slot} {k}");
+            }
+            MOp::POpen(gi) => {
+                l1::GATE_OPEN[*gi].store(true, std::sync::atomic::Ordering::SeqCst);
+                out.obs = format!("popen {gi}");
+            }
+            MOp::PDrop(slot) => {
+                let Some(p) = self.slots[*slot].take() else {
+                    out.obs = "noop".into();
+                    return out;
+                };
+                let pre = (self.g.listed(), l1::stats_of(self.g.f.name));
+                l1::log_take();
+                drop(p);
+                let post = (self.g.listed(), l1::stats_of(self.g.f.name));
+                if pre != post || l1::log_len() != 0 {
+                    out.findings.push(MFinding { property: "C20", monitor: "dropping-a-pending-call-touched-the-cache".into(), detail: format!("{:?} -> {:?}", pre, post) });
+                }
+                out.obs = format!("pdrop {slot}");
+            }
+            MOp::PPoll(slot) => {
+                let now = self.now;
+                let f = self.g.f;
+                let Some(p) = self.slots[*slot].as_mut() else {
+                    out.obs = "noop".into();
+                    return out;
+                };
+                if p.done {
+                    out.obs = "noop".into();
+                    return out;
+                }
+                let k = p.k;
+                let first = !p.polled;
+                let pre = self.g.listed().unwrap_or_default();
+                self.g.present.retain(|kk, _| pre.contains(kk));
+                let had = self.g.present.get(&k).cloned();
+                let (must_expire, must_serve) = self.g.expiry(k, now);
+                let gates_open = (0..f.gates).all(|gi| l1::GATE_OPEN[gi].load(std::sync::atomic::Ordering::SeqCst));
+                let stats_pre = l1::stats_of(f.name);
+                l1::log_take();
+                l1::GATE_BYPASS.store(false, std::sync::atomic::Ordering::SeqCst);
+                let r = std::panic::catch_unwind(std::panic::AssertUnwindSafe(|| l1::poll_once(p.fut.as_mut())));
+                l1::GATE_BYPASS.store(true, std::sync::atomic::Ordering::SeqCst);
+                p.polled = true;
+                let evs = l1::log_take();
+                let executed = evs.iter().any(|e| matches!(e, Ev::Exec { .. }));
+                let r = match r {
+                    Ok(r) => r,
+                    Err(pn) => {
+                        p.done = true;
+                        out.panicked = true;
+                        out.findings.push(MFinding { property: "C20", monitor: "poll-panicked".into(), detail: vsched::describe_panic(&*pn) });
+                        out.obs = "ppoll=panic".into();
+                        return out;
+                    }
+                };
+                let post = self.g.listed().unwrap_or_default();
+                let mut base = pre.clone();
+                let mut hit = false;
+                if first {
+                    self.g.seq += 1;
+                    self.g.lookups += 1;
+                    if had.is_some() && must_expire {
+                        base.remove(&k);
+                        self.g.present.remove(&k);
+                    }
+                    hit = had.is_some() && !must_expire && (must_serve || matches!(r, std::task::Poll::Ready(_)) && !executed);
+                    if hit {
+                        self.g.hits += 1;
+                        if let Some(e) = self.g.present.get_mut(&k) {
+                            e.last_use = self.g.seq;
+                        }
+                    }
+                }
+                match &r {
+                    std::task::Poll::Pending => {
+                        if hit || (!first && gates_open) || (first && gates_open && !hit) && f.gates == 0 {
+                            out.findings.push(MFinding { property: "C20", monitor: "call-did-not-complete".into(), detail: format!("{}({k}) stayed pending although nothing blocks it (entry usable: {hit}, gates open: {gates_open})", f.fn_name) });
+                        }
+                        if gates_open && !hit {
+                            out.findings.push(MFinding { property: "C20", monitor: "call-did-not-complete".into(), detail: format!("{}({k}) stayed pending with every gate open", f.fn_name) });
+                        }
+                        if executed {
+                            out.findings.push(MFinding { property: "C20", monitor: "result-produced-while-suspended".into(), detail: format!("{}({k}) ran past its await although the gate is closed", f.fn_name) });
+                        }
+                        if post != base {
+                            out.findings.push(MFinding { property: "C20", monitor: "suspended-call-changed-the-cache".into(), detail: format!("{}({k}) suspended: keys {:?} -> {:?} (expected {:?})", f.fn_name, pre, post, base) });
+                        }
+                        out.obs = format!("ppoll {slot}=pending{:?}", post);
+                    }
+                    std::task::Poll::Ready(v) => {
+                        p.done = true;
+                        if *v != l1::value(f.id, k, 0) {
+                            out.findings.push(MFinding { property: "C20", monitor: "wrong-value".into(), detail: format!("{}({k}) completed with {v}", f.fn_name) });
+                        }
+                        if hit {
+                            if executed || post != base {
+                                out.findings.push(MFinding { property: "C20", monitor: "served-call-misbehaved".into(), detail: format!("{}({k}) was served from the cache: body ran = {executed}, keys {:?} -> {:?}", f.fn_name, pre, post) });
+                            }
+                        } else {
+                            if !gates_open {
+                                out.findings.push(MFinding { property: "C20", monitor: "result-produced-while-suspended".into(), detail: format!("{}({k}) completed although a gate is closed", f.fn_name) });
+                            }
+                            if !executed {
+                                out.findings.push(MFinding { property: "C20", monitor: "completed-without-running-the-body".into(), detail: format!("{}({k}) completed, no usable entry, body did not run", f.fn_name) });
+                            }
+                            // resumed: stores its result normally
+                            let mut cand = base.clone();
+                            cand.insert(k);
+                            let expect_removed = f.limit.map_or(0, |n| cand.len().saturating_sub(n));
+                            let removed = cand.difference(&post).count();
+                            if !post.contains(&k) || removed != expect_removed || !post.is_subset(&cand) {
+                                out.findings.push(MFinding { property: "C20", monitor: "resumed-call-did-not-store-normally".into(), detail: format!("{}({k}) resumed and completed: keys {:?} -> {:?} with limit {:?}", f.fn_name, pre, post, f.limit) });
+                            }
+                            self.g.present.insert(k, GEntry { ver: 0, is_err: false, born_ns: now, stored_seq: self.g.seq, last_use: self.g.seq });
+                        }
+                        out.obs = format!("ppoll {slot}=ready{}{:?}", if executed { "!" } else { "" }, post);
+                    }
+                }
+                self.g.present.retain(|kk, _| post.contains(kk));
+                let st = l1::stats_of(f.name);
+                if st != Some((self.g.hits, self.g.lookups - self.g.hits)) {
+                    out.findings.push(MFinding { property: "C20", monitor: "stats-mismatch".into(), detail: format!("{}: statistics {:?} (before the poll {:?}), performed lookups {} of which hits {}", f.name, st, stats_pre, self.g.lookups, self.g.hits) });
+                }
             }
             MOp::CallN(i, k) => {
                 let now = self.now;
@@ -311,6 +483,10 @@ impl Machine {
                     }
                 }
                 out.obs = format!("{}={ret}", op.render());
+                if self.pending_seen {
+                    let more: Vec<MFinding> = out.findings.iter().filter(|f| f.property != "C20").map(|f| MFinding { property: "C20", monitor: format!("other-operation-misbehaved/{}/{}", f.property, f.monitor), detail: f.detail.clone() }).collect();
+                    out.findings.extend(more);
+                }
             }
             MOp::StatsReset | MOp::StatsReset2 => {
                 let (a, b) = if matches!(op, MOp::StatsReset) { (Some(&mut self.g), self.g2.as_ref()) } else { (self.g2.as_mut(), Some(&self.g)) };
@@ -671,7 +847,22 @@ fn run_history(s: &Suite, hist: &[MOp], prefix: &[usize], property: &str) -> (Ve
         };
         let mut outs = Vec::new();
         for op in hist {
-            let o = m.step(op);
+            let pending = m.pending_seen;
+            let o = match std::panic::catch_unwind(std::panic::AssertUnwindSafe(|| m.step(op))) {
+                Ok(o) => o,
+                Err(p) => {
+                    // a panic outside the subject's own calls: in sequential mode that is an
+                    // acquisition of a lock somebody still holds (nobody else exists to release it)
+                    let msg = vsched::describe_panic(&*p);
+                    let blocked = msg.contains(vsched::SELF_DEADLOCK_MARK);
+                    let (prop, mon): (&'static str, &str) = match (blocked, pending) {
+                        (true, true) => ("C20", "lock-held-across-suspension"),
+                        (true, false) => ("C17", "lock-still-held-after-operation"),
+                        (false, _) => ("C16", "panic-in-observation"),
+                    };
+                    StepOut { findings: vec![MFinding { property: prop, monitor: mon.into(), detail: format!("{}: {msg}", op.render()) }], obs: "panic".into(), panicked: true }
+                }
+            };
             let stop = o.panicked;
             outs.push(o);
             if stop {
@@ -931,6 +1122,36 @@ pub fn suites_for(property: &str, thorough: bool) -> Vec<Suite> {
                     a.push(MOp::Call2(1));
                 }
                 out.push(Suite { f, f2, group: vec![], wash: false, alphabet: a, depth: d(4, 5) });
+            }
+        }
+        "C20" => {
+            for f in fam("gate") {
+                if !thorough && f.gates == 3 && f.limit.is_none() {
+                    continue;
+                }
+                let mut a = vec![MOp::PStart(0, 1), MOp::PPoll(0)];
+                for g in 0..f.gates {
+                    a.push(MOp::POpen(g));
+                }
+                a.push(MOp::PDrop(0));
+                a.push(MOp::Call(1));
+                a.push(MOp::Call(2));
+                a.push(MOp::InvWith(0b0110));
+                if f.ttl.is_some() {
+                    a.push(MOp::Tick);
+                }
+                if thorough {
+                    a.push(MOp::PStart(1, 1));
+                    a.push(MOp::PPoll(1));
+                    a.push(MOp::Req("tag", "t".to_string()));
+                }
+                let depth = match (thorough, a.len()) {
+                    (false, n) if n >= 9 => 5,
+                    (false, _) => 6,
+                    (true, n) if n >= 12 => 6,
+                    (true, _) => 7,
+                };
+                out.push(Suite { f, f2: None, group: vec![f], wash: false, alphabet: a, depth });
             }
         }
         "C12" => {
